@@ -232,6 +232,9 @@ func ruleMapAssign(c *chk.Ctx) {
 						fwd = true
 					}
 				}
+				if ir.IsExtractOf(arg, split, 1) {
+					fwd = true // strings.Cut: the part after the first separator
+				}
 				if u, ok := arg.(*ssa.UnOp); ok {
 					if ia, ok := u.X.(*ssa.IndexAddr); ok && ia.X == ssa.Value(split) {
 						if k, _ := ir.ConstInt(ia.Index); k == 1 {
